@@ -974,11 +974,16 @@ def aligner_stream(rng, n_syms, patterns, style=None):
     return out[:n_syms - n_syms % 4]
 
 
-def aligner_stimulus(rng, symbols, p_invalid):
+def aligner_stimulus(rng, symbols, p_invalid, pat_syms=(COM,)):
     stim = []
     for i in range(0, len(symbols), 4):
         while rng.random() < p_invalid:
-            stim.append((0, [rng.randrange(512) for _ in range(4)]))
+            # the contents of a bubble are don't-care: random symbols, or (half of the time) alignment symbols
+            if rng.random() < 0.5:
+                k = rng.randint(1, 4)
+                stim.append((0, [rng.choice(pat_syms) for _ in range(k)] + [rng.randrange(512) for _ in range(4 - k)]))
+            else:
+                stim.append((0, [rng.randrange(512) for _ in range(4)]))
         stim.append((1, symbols[i:i + 4]))
     stim += [(0, [0, 0, 0, 0])] * 3
     return stim
@@ -1007,6 +1012,36 @@ def aligner_sweep(patterns):
                         stim.append((1, symbols[4 * wi:4 * wi + 4]))
                     stim += [(0, [0, 0, 0, 0])] * 3
                     out.append((stim, "sweep %d->%d invalid@%s" % (a, b, inv)))
+    return out
+
+
+def aligner_bubble_sweep(patterns):
+    """Invalid cycles (bubbles) whose don't-care contents look like alignment symbols, directly behind a valid word that
+    ends in 0..3 symbols of a pattern, for every current offset s: a real pattern establishes offset s; a valid raw word
+    ends in the first t symbols of a pattern; the bubble carries the next 0..4 pattern symbols (t+lead >= 4 would complete
+    the pattern if bubbles were looked at), a whole pattern word or four times its first symbol; plain valid data
+    follows.  Invalid cycles are transparent, so the offset must not move and the data must stay regrouped at s."""
+    out = []
+    n = 0
+    for pat in patterns:
+        pat = list(pat)
+        for s_ in range(4):
+            for t in range(4):
+                variants = [((pat[t:] + pat)[:lead] + [0x0BC, 0x017, 0x0FB, 0x0F7][:4 - lead], "lead%d" % lead) for lead in range(5)]
+                variants += [(pat, "whole"), ([pat[0]] * 4, "first*4")]
+                for bubble, vname in variants:
+                    n += 1
+                    symbols = [0x40 + k for k in range(4 + s_)] + pat + [0x80 + ((n * 7 + k) & 0x3F) for k in range(8)]
+                    symbols += [0xD0 + k for k in range((4 - len(symbols) % 4) % 4)]      # up to a raw word boundary
+                    symbols += [0x60 + k for k in range(4 - t)] + pat[:t]                 # valid word ending in t pattern symbols
+                    words = [symbols[i:i + 4] for i in range(0, len(symbols), 4)]
+                    stim = [(1, w) for w in words]
+                    stim.append((0, list(bubble)))
+                    if n % 2:
+                        stim.append((0, list(bubble)))                                    # two bubbles in a row
+                    stim += [(1, [0x21 + 4 * k, 0x22 + 4 * k, 0x123 + 4 * k, 0x24 + 4 * k]) for k in range(5)]
+                    stim += [(0, [0, 0, 0, 0])] * 3
+                    out.append((stim, "bubble sweep off=%d tail=%d bubble=%s" % (s_, t, vname)))
     return out
 
 
@@ -1051,17 +1086,27 @@ def check_C34(rep):
             stim += [(0, [0, 0, 0, 0])] * 3
             items.append((bench.run(stim), {"dut": cls, "origin": "tlc-simulate"}))
         # code -> spec: systematic offset-pair sweep, then random streams
-        for stim, origin in aligner_sweep(patterns):
+        for stim, origin in aligner_sweep(patterns) + aligner_bubble_sweep(patterns):
             items.append((bench.run(stim), {"dut": cls, "origin": origin}))
         for k in range(24 if quick else 200):
             symbols = aligner_stream(rng, 400 if quick else 800, patterns)
-            stim = aligner_stimulus(rng, symbols, rng.choice([0.0, 0.0, 0.15, 0.4]))
+            stim = aligner_stimulus(rng, symbols, rng.choice([0.0, 0.0, 0.15, 0.4]), sorted(special))
             items.append((bench.run(stim), {"dut": cls, "origin": "random"}))
         for tr, meta in items:
             rep.add_eval(len(tr))
             prev_off = 0
             prev_valid = True
+            tail = 0
             for r in tr:
+                if r["v"]:
+                    tail = 0
+                    for x in reversed(r["w"]):
+                        if x not in special:
+                            break
+                        tail += 1
+                elif r["w"][0] in special:
+                    lead = next((k for k, x in enumerate(r["w"]) if x not in special), 4)
+                    rep.nontriv((cls, "bubble", prev_off, tail, lead))
                 if r["ov"]:
                     if r["ow"] in patterns or r["ooff"] != prev_off:
                         rep.nontriv((cls, r["ooff"], prev_off, prev_valid, r["ow"] in patterns))
